@@ -60,6 +60,29 @@ Theorem C03_safe_name_variable_refuted :
 Proof. exact safe_name_variable_refuted. Qed.
 Print Assumptions C03_safe_name_variable_refuted.
 
+(* hence the constant a _resolve_numeric_arg / _resolve_bool_arg call site (pins, delays, counts, flags) bakes in is the
+   value of the argument expression in EVERY run-time environment, i.e. on every path - inside in_guard *)
+Theorem C03_site_numeric_sound_partial : forall cenv e rho z,
+  binds_safe_name cenv = false -> unshadowed rho -> in_guard [] e = true ->
+  resolve_numeric cenv e = Folded z ->
+  exists v, peval rho e = Ok v /\
+            match v with VBool b => z = (if b then 1 else 0) | VInt n => z = n | VFloat q => z = qtrunc q | _ => False end.
+Proof. exact site_numeric_sound. Qed.
+Print Assumptions C03_site_numeric_sound_partial.
+
+Theorem C03_site_bool_sound_partial : forall cenv e rho b,
+  binds_safe_name cenv = false -> unshadowed rho -> in_guard [] e = true ->
+  resolve_bool cenv e = Folded b ->
+  exists v, peval rho e = Ok v /\ is_numv v = true /\ b = truthy v.
+Proof. exact site_bool_sound. Qed.
+Print Assumptions C03_site_bool_sound_partial.
+
+Example C03_site_sound_nonvacuous :
+  resolve_numeric [([120], Known (VInt 9))] (EBin Mult (EInt 250) (EBin Add (EInt 1) (EInt 1))) = Folded 500 /\
+  resolve_numeric [([120], Known (VInt 9))] (EBin Mult (EName [120]) (EInt 2)) = Fallback.
+Proof. exact site_sound_example. Qed.
+Print Assumptions C03_site_sound_nonvacuous.
+
 (* len(...) folded by _literal_length is the length Python computes, if the argument has a value at all *)
 Theorem C03_literal_length_sound : forall cenv rho e n v,
   agrees cenv rho -> literal_length cenv e = Some n -> peval rho e = Ok v -> py_call n_len [v] = Ok (VInt n).
